@@ -30,20 +30,7 @@ ACTIONS = ("IStart", "IPrune", "IReturn", "DStart", "DKey", "DReturn",
            "UStart", "UKey", "UReturn", "NStart", "NWalk", "NInsert", "NAssign")
 
 
-class Fails(object):
-    """violations by key, keeping the smallest failing scenario of each"""
-
-    def __init__(self):
-        self.by_key = {}
-
-    def add(self, key, sz, detail):
-        cur = self.by_key.get(key)
-        if cur is None or sz < cur[0]:
-            self.by_key[key] = (sz, detail)
-
-    def report(self, ctx):
-        for key in sorted(self.by_key):
-            ctx.violation(key, self.by_key[key][1])
+Fails = cl.Fails
 
 
 def call(fns, op, args, lv, key, default_form):
